@@ -89,6 +89,7 @@ type FnCtx struct {
 	faCount      int
 	pfUsed       map[string]bool
 	mkArgs       map[string][]string
+	nPreFacts    int
 }
 
 type deferred struct {
